@@ -85,6 +85,14 @@ def one_log(ctx, d, kinds, lines, pending, msg_boundaries=True, name='t.p1log'):
             got = load_index(p1i, path)
             lines.append('p1iload %s %s' % (B[:k].hex() or '-', d2.hex() or '-'))
             pending.append(('load', replay, got))
+            if name == 'same' and k == len(B) and B:
+                # the property, on the entries themselves: the complete saved index of the unchanged file loads as the fresh index
+                want = 'ok ' + (recs if recs != '-' else '')
+                if got != want:
+                    ctx.violation('C09/loaded-index-differs-from-fresh',
+                                  'the saved index loads as (time:type:offset) %s, the fresh index of the same file is %s'
+                                  % (got[:160], want[:160]), replay)
+                ctx.count('complete_index_reloaded')
             if k % 3 == 0:
                 # the rarely used call form delete_on_error=False: same verdict, but the index file is left alone
                 with open(p1i, 'wb') as f:
@@ -221,6 +229,14 @@ def run(ctx, budget):
     for i in range(budget):
         d, kinds = gen.small_file(rng, rng.choice([1, 2, 4]), 64, 'VU')
         one_log(ctx, d, kinds, lines, pending, name=['t.p1log', 'capture.raw', 'mixed.bin'][i % 3])
+    # logs of real timed / untimed messages, including P1 times in the first second after start-up and NaN times
+    from props import reader_common as rc
+    for i in range(max(3, budget // 2)):
+        d = rc.make_log(rng, rng.choice([2, 4, 7]), junk=(i % 2 == 0), t_start=[0.0, 0.25, 0.75, 1.0, 100.25][i % 5],
+                        step_choices=(0, 0.25, 0.25, 0.5, 1, 2))
+        ic.rebind(80 * 1024, 16 * 1024)
+        one_log(ctx, d, 'timed', lines, pending)
+        ctx.count('timed_logs')
     one_log(ctx, b'', 'empty', lines, pending)
     one_log(ctx, b'\x01\x02\x03', 'junk', lines, pending)
     histories(ctx, budget * 20, lines, pending)
